@@ -9,6 +9,9 @@ Section S.
   Definition perm_ref_ctx (s : estate) (k : text) (rv : list value) : outcome bool :=
     perm_ref ptab (e_enabled s) (e_model s) (e_mexprs s) (e_fs s)
              (s_r ++ k) (s_p ++ k) (s_e ++ k) (s_m ++ k) (tok (s_p ++ k) s_eft) rv.
+  (* hand-assembled EnforceContext: four independent section names *)
+  Definition perm_ref_ctx4 (s : estate) (rk pk ek mk : text) (rv : list value) : outcome bool :=
+    perm_ref ptab (e_enabled s) (e_model s) (e_mexprs s) (e_fs s) rk pk ek mk (tok pk s_eft) rv.
 End S.
 
 Definition outcome_eqb (a b : outcome bool) : bool :=
